@@ -156,6 +156,16 @@ def run_unit(unit, part):
                 if streams and not _half_close_case(role, seq):
                     part.violate('C10.no-open-streams', 'C10.no-open-streams | scripted | %s | %s' % (role, '>'.join(x for x in seq if x in ('X', 'PE', 'PC', 'TC'))),
                                  '%s retains streams %s after %s' % (role, streams, seq), wit)
+                if role == 'channel-responder' and not streams and not partial and seq[-1] != 'F':
+                    # "the stream's id can be used again": the peer opens a new channel under the same id
+                    mark = len(s.log)
+                    s.peer(R.enc_request(R.REQUEST_CHANNEL, 1, b'again', n=5))
+                    s.settle()
+                    calls = [ev for ev in s.api('handler', mark) if ev[3] == 'request_channel']
+                    errs = [f for f in s.sent_on(1, mark) if f.type == R.ERROR]
+                    if len(calls) != 1 or errs:
+                        part.violate('C10.id-usable-again', 'C10.id-usable-again | scripted | %s' % ('rejected' if errs else 'not-dispatched'),
+                                     'a new REQUEST_CHANNEL under the id of the terminated channel after %s: handler calls %d, errors %s' % (seq, len(calls), errs), wit)
         finally:
             s.teardown()
     part.sample({'kind': 'interrupted-fragments', 'role': role, 'link': flavour, 'depth': unit['depth']}, limit=2)
